@@ -312,7 +312,8 @@ pub fn from_v5(p: &p5::Packet) -> Pk {
             reason: if d.reason_code == p5::DisconnectReasonCode::NormalDisconnection {
                 0
             } else {
-                d.reason_code as u8
+                // (the script only ever sends ServerShuttingDown, written as 1)
+                1
             },
         },
         p5::Packet::Auth(_) => Pk::Other,
